@@ -20,7 +20,7 @@ Qed.
 Lemma plain_scalar_below tag v l c a :
   tag <> mapTag -> tag <> seqTag -> tag <> mergeTag -> tag <> nullTag -> plain_below (Sc tag v l c a).
 Proof.
-  intros. apply plain_below_intro; [|intros ? []]. split; [reflexivity|]. cbn. repeat split; auto.
+  intros. apply plain_below_intro; [|intros ? []]. split; [reflexivity|]. split; [assumption|]. reflexivity.
 Qed.
 
 Definition e_t := Sc "!!str" "up == 0" 5 11 65975.
@@ -41,7 +41,7 @@ Definition w_alias : node := Dc 1 1 388 [root_w].
 
 Ltac psc := apply plain_scalar_below; discriminate.
 Ltac inv_in H := repeat (destruct H as [H|H]; [inversion H; subst; clear H|]); try contradiction.
-Ltac pmap := split; [reflexivity|]; cbn; repeat split; auto.
+Ltac pmap := split; [reflexivity|]; split; [discriminate|]; cbn; repeat split; auto.
 
 Lemma l_t_plain : plain_below l_t.
 Proof.
